@@ -213,6 +213,9 @@ impl<'a> Tx<'a> {
                 if self.ops && s == "self" {
                     return "this".to_string(); // the object the method is called on
                 }
+                if self.ops && s == "h" {
+                    return "h_local".to_string(); // R58: a local named `h` would shadow the arena
+                }
                 if let (Some((nm, _, _, _)), Some(sub)) = (&self.link_alias, &self.link_subst) {
                     if &s == nm {
                         return sub.clone();
@@ -279,6 +282,7 @@ impl<'a> Tx<'a> {
                 let n = m.mac.path.segments.last().map(|s| s.ident.to_string()).unwrap_or_default();
                 match n.as_str() {
                     "unreachable" => "{ assert(false); loop invariant false decreases 0int { } }".to_string(),
+                    "panic" if self.ops => "{ assert(false); loop invariant false decreases 0int { } }".to_string(), // a reachable panic! is a failed obligation
                     "load_factor" if self.ops => {
                         // R54: load_factor!(x) -> load_factor(x) (the macro body is under contract in unit arith: //@MACRO load_factor)
                         match syn::parse2::<syn::Expr>(m.mac.tokens.clone()) {
@@ -326,6 +330,27 @@ impl<'a> Tx<'a> {
                     None => "{ }".into(),
                 };
                 format!("if {} {} else {}", c, t, el)
+            }
+            syn::Expr::Match(m) if self.ops && m.arms.iter().any(|a| toks(&a.pat).starts_with("BinEntry::")) => {
+                // R59: an expression-level match on the entry behind a pointer: match on its kind; the variable a pattern binds
+                // (`BinEntry::K(ref x)`) is the pointer itself, `&x.node` of a tree node is the same pointer
+                let scrut = self.expr(&m.expr);
+                let mut arms = vec![];
+                for a in &m.arms {
+                    let pat0 = toks(&a.pat);
+                    let pat = if pat0.trim() == "_" { "_".to_string() } else {
+                        let head = pat0.split('(').next().unwrap_or("").trim().to_string();
+                        head.replace("BinEntry::", "Kind::").replace("Kind::TreeNode", "Kind::@TN").replace("Kind::Tree", "Kind::TreeBin").replace("Kind::@TN", "Kind::TreeNode")
+                    };
+                    let body_t = toks(&*a.body).replace(' ', "");
+                    let bound = if let syn::Pat::TupleStruct(ts) = &a.pat { ts.elems.first().map(|e| toks(e).replace("ref ", "").replace("mut ", "").trim().to_string()) } else { None };
+                    let body = match &bound {
+                        Some(b) if body_t == *b || body_t == format!("&{}.node", b) => scrut.clone(),
+                        _ => self.expr(&a.body),
+                    };
+                    arms.push(format!("{} => {},", pat, body));
+                }
+                format!("match h.kind({}) {{ {} }}", scrut, arms.join(" "))
             }
             syn::Expr::Match(m) => {
                 let scrut = self.expr(&m.expr);
@@ -829,7 +854,13 @@ impl<'a> Tx<'a> {
                 }
                 String::new()
             }
-            "help_transfer" | "add_count" | "transfer" if self.self_ptr => {
+            "get" | "get_key_value" | "contains_key" if self.ops && !self.wrap && toks(&*m.receiver) == "self" => {
+                let args: Vec<String> = m.args.iter().filter(|a| !is_drop_arg(a)).map(|a| self.expr(a)).collect();
+                let mut all = vec!["h".to_string(), "this".to_string()];
+                all.extend(args);
+                format!("{}({})", name, all.join(", "))
+            }
+            "help_transfer" | "add_count" | "transfer" | "get_node" if self.self_ptr => {
                 // method of the map itself: f(h, this, args..) (guard arguments dropped)
                 let args: Vec<String> = m.args.iter().filter(|a| !is_drop_arg(a)).map(|a| self.expr(a)).collect();
                 let mut all = vec!["h".to_string(), "this".to_string()];
@@ -988,6 +1019,25 @@ impl<'a> Tx<'a> {
             syn::Stmt::Local(l) if self.self_ptr && l.init.as_ref().map(|i| toks(&*i.expr).contains("Guard::unprotected")).unwrap_or(false) => {
                 // R24: the unprotected guard of teardown code has no arena counterpart
             }
+            syn::Stmt::Local(l) if self.ops && matches!(l.init.as_ref().map(|i| &*i.expr), Some(syn::Expr::Try(_))) && matches!(&l.pat, syn::Pat::Ident(_)) => {
+                // R60: let x = E?;  in a function returning Option: None is passed on
+                if let (syn::Pat::Ident(pi), Some(init)) = (&l.pat, &l.init) {
+                    if let syn::Expr::Try(t) = &*init.expr {
+                        let v = self.expr(&t.expr);
+                        let v = self.hoist(v);
+                        let pre: Vec<String> = self.pre.drain(..).collect();
+                        for p0 in pre { self.push(ind, p0, ln, true); }
+                        let k = self.ret_count;
+                        self.ret_count += 1;
+                        self.push(ind, format!("if {}.is_none() {{", v), ln, false);
+                        self.mark(ind + 1, format!("ret#{}", k));
+                        self.push(ind + 1, "return None;".into(), ln, true);
+                        self.push(ind, "}".into(), 0, false);
+                        self.push(ind, format!("let {}: Ptr = {}.unwrap();", pi.ident, v), ln, true);
+                        self.aliases.push(pi.ident.to_string());
+                    }
+                }
+            }
             syn::Stmt::Local(l) => {
                 let (name, ty) = match &l.pat {
                     syn::Pat::Ident(i) => (Some((i.ident.to_string(), i.mutability.is_some())), None),
@@ -998,6 +1048,7 @@ impl<'a> Tx<'a> {
                     _ => (None, None),
                 };
                 let (name, is_mut) = match name {
+                    Some((n0, m0)) if self.ops && n0 == "h" => ("h_local".to_string(), m0),
                     Some(x) => x,
                     None => {
                         self.err("destructuring let", l.span());
